@@ -12,10 +12,17 @@ CFG = {
     "rule_text": "cases = (a, b) with the implementation's ==, partial_cmp, cmp (api) plus the rendered `==`, `<`, `[a,b]|unique`, `[a,b]|sort` (pair); "
                  "(map, key) with m[k], `k in m`, containing, get, get+default, m.k (lookup); (container, needle) (member). Distinct by the Gallina term. "
                  "Non-trivial = different pool entries of which one is an array/map or whose kinds differ (api, pair); a non-empty map and an operand "
-                 "that can be a key (lookup); a container of >= 2 elements (member). Pool: ~140 values of every kind, each boundary integer in every "
+                 "that can be a key (lookup); a container of >= 2 elements (member). Base pool: ~140 values of every kind, each boundary integer in every "
                  "encoding incl. u128 > i128::MAX, NaN/±0/±inf/2^53±1/2^63/2^64/2^127/2^128 floats, safe and normal strings, nested mixed arrays and maps. "
+                 "Provenance pool: ~570 values = 23 abstract values (strings of 0..300 bytes on both sides of the 21-byte inline limit, integers, bools, none, arrays, maps, a map "
+                 "storing an undefined value) each obtained through every route (Rust constructors, Key->Value owned and borrowed, serde via Context::insert/from_serializable, "
+                 "template literals, arithmetic results, filters, loop keys, keys/pairs, set/capture); two routes to the same value must be ==, cmp-Equal, rendered `==` true, "
+                 "members of each other's arrays and interchangeable as lookup keys (oracles) and print to the same model term (model comparison). "
+                 "Lookup maps store undefined and none values (Rust API and map literals with missing variables) for every key kind and width on both sides of the scan cutoff; "
+                 "key presence is decided by an oracle that is independent of the engine's Key Eq/Hash. "
                  "The law oracle (reflexive/symmetric/transitive ==; antisymmetric/transitive cmp; Equal <=> ==; partial_cmp => cmp) is evaluated on the "
-                 "implementation's own answers for ALL pairs and ALL triples of the pool in both tiers; the model is run on a sample of pairs (quick) or all pairs (thorough).",
+                 "implementation's own answers for ALL pairs and ALL triples of base + provenance pool in both tiers; the model is run on a sample of pairs (quick) or all pairs of the base pool "
+                 "plus all same-value route pairs (thorough).",
     "trusted_base": TB_COMMON + [
         "axioms: none (every C15 theorem is 'Closed under the global context')",
         "modelled, not verified: std HashMap (an association list in arbitrary order whose keys are pairwise unequal, lookup by Key::eq; theorems hold "
@@ -26,7 +33,8 @@ CFG = {
     ],
     "modelled": ["value/mod.rs cmp_f64_to_number/i128/u128, PartialEq, PartialOrd, Ord for Value (with fixes/D2-total-order.patch), as_key, contains, get_attr, get_item (map arm)",
                  "value/key.rs PartialEq/Ord/Hash for Key, KeyNumber, type_order",
-                 "filters.rs get; tests.rs is_containing; vm/interpreter.rs ordering_binop, LoadAttr, BinarySubscript, In"],
+                 "filters.rs get; tests.rs is_containing; vm/interpreter.rs ordering_binop, LoadAttr, BinarySubscript, In",
+                 "value/mod.rs From<Key> for Value / Key::as_value (key_to_value); the inline/heap split of SmartString is below the model: a string value is its text + safe mark"],
     "assumptions": ["values are well formed: integers fit their variant, the keys of one map are pairwise unequal (HashMap invariant)",
                     "implementation == model only on the cases enumerated by the harness",
                     "the model describes Ord for Value as repaired by fixes/D2-total-order.patch; on a tree without that patch the check reports the D2 violations",
